@@ -46,7 +46,7 @@ def uw(n, width):
               r'WMCore::init_support$': width + 2, r'WMCore as simple_sds::serialize::Serialize>::load': width + 2,
               r'drop_glue::<\[simple_sds::bit_vector::BitVector\]>': width + 2,
               r'stubs_bv::(enable|enabled)$': 26, r'stubs_bv::words_of$': 4, r'c04::levels_of$#3': width + 2, r'c04::levels_of$': n + 2, r'c04::load_wm$': (1 << width) + 2,
-              r'IntVector::with_len$': (1 << width) + 2, r'Vec::<u64>::extend_with$': 4, r'RawVector::count_ones$': 4, r'c04::': 10})
+              r'IntVector::with_len$': (1 << width) + 2, r'Vec::<u64>::extend_with$': 4, r'RawVector::count_ones$': 4, r'c04::': max(10, (1 << width) + 2)})
     return d
 
 
